@@ -15,6 +15,13 @@
  *     u:<pubfile-hex>:<oid>:<value-hex>   the publications file is from now on this one (served through file://, trusted through
  *                                the CA in $VERIF_PKI_DIR under the given certificate constraint); fresh contexts are configured
  *                                with the file that is current                                 => U<st>
+ *     uo:<pubfile-hex>           the content behind the unchanged publications URL is replaced  => U0
+ *     ttl:<seconds>              KSI_OPT_PUBFILE_CACHE_TTL_SECONDS of the context (0: every use fetches the file again) => T<st>
+ *     xp:<ver>:<reply-hex>:<pubrec-hex|->:<to|->   an extension that SUCCEEDS when the reply is honest: the extender is a file:// URI whose
+ *                                content is the reply (login anon/anon, request id 1); with a publication record KSI_Signature_extend(sig, ctx, rec),
+ *                                else KSI_Signature_extendTo(sig, ctx, to)  => X<st>:<1 when the source serializes as before>:<1 when the
+ *                                result has the publication record that was asked for | ->
+ *   every second fresh context has a logger installed and its log level at DEBUG (NONE when the history's context is at DEBUG)
  *   => P<status> when the first signature does not parse
  */
 #include "common.h"
@@ -26,8 +33,12 @@
 #include <ksi/signature_builder.h>
 #include <ksi/tlv_template.h>
 #include <ksi/hashchain.h>
+#include <ksi/impl/ctx_impl.h>
+#include <ksi/impl/net_impl.h>
 
 KSI_IMPORT_TLV_TEMPLATE(KSI_AggregationHashChain);
+KSI_IMPORT_TLV_TEMPLATE(KSI_PublicationRecord);
+static int cur_level;
 
 static unsigned long logged;
 static int log_cb(void *c, int level, const char *msg) { (void)c; (void)level; (void)msg; logged++; return KSI_OK; }
@@ -93,6 +104,7 @@ static void do_line(char *work, const char *orig) {
 	if (n >= 2 && !strcmp(w[0], "h")) {
 		KSI_CTX *ctx = NULL; KSI_Signature *sig = NULL; size_t len; unsigned char *raw = unhex(w[1], &len); int r;
 		KSI_VerificationContext shared;
+		cur_level = 0;
 		KSI_CTX_new(&ctx);
 		KSI_VerificationContext_init(&shared, ctx);
 		KSI_CTX_setLoggerCallback(ctx, log_cb, NULL);
@@ -124,6 +136,7 @@ static void do_line(char *work, const char *orig) {
 				{	/* the same question put to a fresh parse in a fresh context */
 					KSI_CTX *c2 = NULL; KSI_Signature *s2 = NULL; KSI_DataHash *d2 = NULL;
 					KSI_CTX_new(&c2);
+					if (i & 1) { KSI_CTX_setLoggerCallback(c2, log_cb, NULL); KSI_CTX_setLogLevel(c2, cur_level >= KSI_LOG_DEBUG ? KSI_LOG_NONE : KSI_LOG_DEBUG); }
 					configure_pub(c2, 1);
 					KSI_Signature_parseWithPolicy(c2, raw, len, KSI_VERIFICATION_POLICY_EMPTY, NULL, &s2);
 					if (doc != NULL) { const unsigned char *im; size_t il; KSI_DataHash_getImprint(doc, &im, &il); KSI_DataHash_fromImprint(c2, im, il, &d2); }
@@ -145,6 +158,42 @@ static void do_line(char *work, const char *orig) {
 				configure_pub(ctx, first);
 				printf("U0");
 				free(pb); free(vb);
+			} else if (!strncmp(op, "uo:", 3)) {
+				size_t pl; unsigned char *pb = unhex(op + 3, &pl); FILE *f;
+				if (!have_pub) { printf("BAD-OP"); free(pb); continue; }
+				f = fopen(pub_path, "wb"); if (f != NULL) { if (pl) fwrite(pb, 1, pl, f); fclose(f); }
+				printf("U0"); free(pb);
+			} else if (!strncmp(op, "ttl:", 4)) {
+				printf("T%d", KSI_CTX_setOption(ctx, KSI_OPT_PUBFILE_CACHE_TTL_SECONDS, (void *)(size_t)strtoul(op + 4, NULL, 10)));
+			} else if (!strncmp(op, "xp:", 3)) {
+				char *f[4]; int k = 0; char *p = op + 3, *q; size_t rn, bl = 0, al = 0; unsigned char *reply, *before = NULL, *after = NULL;
+				char path[64], uri[96]; int fd; FILE *fp; KSI_Signature *ext = NULL; KSI_PublicationRecord *pub = NULL, *got = NULL; KSI_TLV *pubTlv = NULL; KSI_Integer *to = NULL;
+				while (k < 3 && (q = strchr(p, ':')) != NULL) { *q = 0; f[k++] = p; p = q + 1; }
+				f[k++] = p;
+				if (k < 4) { printf("BAD-OP"); continue; }
+				reply = unhex(f[1], &rn);
+				strcpy(path, "/tmp/verif_c11x_XXXXXX"); fd = mkstemp(path); fp = fdopen(fd, "wb"); if (rn) fwrite(reply, 1, rn, fp); fclose(fp);
+				snprintf(uri, sizeof(uri), "file://%s", path);
+				KSI_CTX_setOption(ctx, KSI_OPT_EXT_PDU_VER, (void *)(size_t)atoi(f[0]));
+				KSI_CTX_setExtender(ctx, uri, "anon", "anon");
+				ctx->requestCounter = 0; if (ctx->netProvider) ctx->netProvider->requestCount = 0;
+				KSI_Signature_serialize(sig, &before, &bl);
+				r = KSI_OK;
+				if (strcmp(f[2], "-")) {
+					size_t pl; unsigned char *pb = unhex(f[2], &pl);
+					r = KSI_TLV_parseBlob(ctx, pb, pl, &pubTlv); free(pb);
+					if (r == KSI_OK) r = KSI_PublicationRecord_new(ctx, &pub);
+					if (r == KSI_OK) r = KSI_TlvTemplate_extract(ctx, pub, pubTlv, KSI_TLV_TEMPLATE(KSI_PublicationRecord));
+					if (r == KSI_OK) r = KSI_Signature_extend(sig, ctx, pub, &ext);
+				} else {
+					if (strcmp(f[3], "-")) KSI_Integer_new(ctx, strtoull(f[3], NULL, 10), &to);
+					r = KSI_Signature_extendTo(sig, ctx, to, &ext);
+				}
+				KSI_Signature_serialize(sig, &after, &al);
+				printf("X%d:%d:", r, (before != NULL && after != NULL && al == bl && !memcmp(before, after, al)) ? 1 : 0);
+				if (r == KSI_OK && ext != NULL && pub != NULL) { KSI_Signature_getPublicationRecord(ext, &got); printf("%d", got != NULL ? 1 : 0); } else putchar('-');
+				KSI_free(before); KSI_free(after); KSI_Signature_free(ext); KSI_PublicationRecord_free(pub); KSI_TLV_free(pubTlv); KSI_Integer_free(to);
+				unlink(path); free(reply);
 			} else if (!strcmp(op, "x")) {
 				KSI_Signature *ext = NULL; r = KSI_Signature_extend(sig, ctx, NULL, &ext);
 				printf("X%d", r); KSI_Signature_free(ext);
@@ -189,7 +238,7 @@ static void do_line(char *work, const char *orig) {
 				KSI_DataHash_free(ph); KSI_Utf8String_free(ps); KSI_Utf8StringList_free(refs); KSI_Utf8StringList_free(urls);
 				printf("G");
 			} else if (!strncmp(op, "l:", 2)) {
-				KSI_CTX_setLogLevel(ctx, atoi(op + 2)); printf("L");
+				cur_level = atoi(op + 2); KSI_CTX_setLogLevel(ctx, cur_level); printf("L");
 			} else if (!strncmp(op, "p:", 2)) {
 				size_t ol; unsigned char *o = unhex(op + 2, &ol); KSI_Signature *os = NULL;
 				r = KSI_Signature_parseWithPolicy(ctx, o, ol, KSI_VERIFICATION_POLICY_INTERNAL, NULL, &os);
